@@ -1102,6 +1102,7 @@ def LockStep (s : Sys F) : Ev → Prop
   | .setCfg cfg => windowsOf (step s (.setCfg cfg)).1 = windowsOf s
   | .crit d => windowsOf (step s (.crit d)).1 = windowsOf s
   | .failNext c => windowsOf (step s (.failNext c)).1 = windowsOf s
+  | .failAfter c kfa => windowsOf (step s (.failAfter c kfa)).1 = windowsOf s
   -- injecting a socket re-creation failure is no reference event and moves no window; the tick that
   -- consumes it tears the link down like any other reconnect attempt (a `linkReset` in the `.hk` clause)
   | .failBind c => windowsOf (step s (.failBind c)).1 = windowsOf s
@@ -1193,6 +1194,7 @@ theorem C10_lockstep_step (B : Nat) (s : Sys F) (e : Ev) (h : RunInv B s) (hB : 
   | setCfg cfg => rfl
   | crit d => rfl
   | failNext c => rfl
+  | failAfter c kfa => rfl
   | failBind c => rfl
   | stamp idx w ld cb ct => exact stamp_abs s idx w ld cb ct
   | syncTimeout => exact sync_abs s
